@@ -330,6 +330,7 @@ def shards(tier, seed):
             out.append(("d1", mode, a))
         out.append(("unary", mode))
         out.append(("d2", mode))
+    out.append(("autoreduce",))
     out.append(("temps", "Fraction"))
     out.append(("temps", "float"))
     return out
@@ -657,8 +658,42 @@ def run_temperatures(acc, mode):
     acc.sample({"clause": "covariance", "what": "temperature comparisons", "mode": mode, "example": "Q(26.85, degC) > Q(280, K)  ==  Q(300, K) > Q(280, K)"})
 
 
+def loosen(c):
+    """merging proportional units divides exponents (hectare * meter -> hectare ** 1.5), and a fractional power of a
+    scale factor is a float even in the exact registry (DESIGN section 2 carve-out): compare such results as floats"""
+    if isinstance(c, tuple) and len(c) == 3 and c[0] == "q" and isinstance(c[2], Fraction):
+        return (c[0], c[1], float(c[2]))
+    return c
+
+
+def run_autoreduce(acc):
+    """unit covariance is also promised under the registry option auto_reduce_dimensions=True, where every product and
+    quotient rewrites its unit container: all ordered pairs of leaves x every spelling assignment x {*, /} x {plain,
+    in-place}, exact registry, against the exact calculator"""
+    M = model()
+    ureg = regs.default("Fraction", auto_reduce_dimensions=True)
+    names = [n for n in LEAVES if n not in ("nanm",)]
+    for aname, bname in itertools.product(names, repeat=2):
+        refA, refB = leaf_ref(M, aname, "Fraction"), leaf_ref(M, bname, "Fraction")
+        for opname in ("*", "/"):
+            ref = eval_ref(lambda: ref_bin(opname, refA, refB))
+            for form in ("plain", "inplace"):
+                variants = []
+                for sa, sb in itertools.product(LEAVES[aname], LEAVES[bname]):
+                    a, b = mk_leaf(ureg, "Fraction", sa), mk_leaf(ureg, "Fraction", sb)
+                    o = run_op(lambda: (BIN if form == "plain" else IOPS)[opname](a, b))
+                    acc.ev()
+                    acc.nt(("autoreduce", opname, form, aname, bname, sa, sb))
+                    variants.append(([list(sa), list(sb)], (o[0], loosen(canon(M, o[1])) if o[0] == "ok" else o[1])))
+                check_tree(acc, M, "Fraction", [aname, opname, bname, "auto_reduce_dimensions"], (ref[0], loosen(ref[1])) if ref[0] == "ok" else ref, variants, opname, form + "+auto-reduce")
+    acc.outcome("auto-reduce")
+    acc.sample({"mode": "Fraction, auto_reduce_dimensions=True", "tree": ["1m2", "*", "5m"], "spellings": [["1/10000", "hectare"], ["1/200", "kilometer"]]})
+
+
 def run_shard(acc, shard, tier, seed):
     k = shard[0]
+    if k == "autoreduce":
+        return run_autoreduce(acc)
     if k == "temps":
         return run_temperatures(acc, shard[1])
     if k == "d1":
@@ -676,7 +711,9 @@ def replay(rec):
     acc = core.Acc(PROPERTY)
     mode = case.get("mode", "Fraction")
     tree = case.get("tree", [])
-    if site[2] == "temperature-scales":
+    if site[2].endswith("+auto-reduce"):
+        run_autoreduce(acc)
+    elif site[2] == "temperature-scales":
         run_temperatures(acc, mode)
     elif site[2] == "depth2":
         run_d2(acc, mode, rec.get("tier", "quick"))
@@ -695,7 +732,7 @@ MANIFEST = {
     "text": "Every depth-1 tree over 12 physical leaves (each available in 2-4 compatible unit spellings, including prefixed units and dimensionless units with and without root units) and 6 bare numbers, "
     "for 14 binary operators in plain, reflected and in-place form plus neg/pos/abs, is evaluated under EVERY spelling assignment; depth-2 trees (a.b).c and a.(b.c) over {+,-,*,/}. Scalars in the "
     "Fraction registry are compared exactly; 1-d ndarray magnitudes in the float registry (where in-place forms really are in place) with 1e-9. Each tree's results must agree across spellings, "
-    "match an exact value/dimension calculator written from the property statement (which decides DimensionalityError / number-acceptance clauses), and leave every operand other than an in-place "
+    "(also in an exact registry with auto_reduce_dimensions=True for * and /, plain and in place) match an exact value/dimension calculator written from the property statement (which decides DimensionalityError / number-acceptance clauses), and leave every operand other than an in-place "
     "target bit-identical; after every in-place form (and after an in-place form followed by ito_root_units without looking at the object in between) dimensionality / dimensionless / unitless / check / is_compatible_with must describe the units the object now carries. The six comparison operators and sorted() are additionally run over 4 absolute temperatures, each written in every scale of the bundled registry (K, degC, degF, degR, mK): every "
     "ordered pair of spellings must compare as the kelvin values do, and in an autoconvert registry their products and quotients with ordinary quantities (compound, dimensionless, inverse) must not depend on the scale, in either operand order.",
     "note": "Trusted: the 80-line reference calculator and R1 factors. Arithmetic on offset units is C06's subject (only their comparisons are covered here); trees deeper than 2 and leaves outside the alphabet are outside the bound; ZeroDivision outcomes "
